@@ -229,7 +229,7 @@ def observe_fit(idnt, kwargs, label=""):
         "req_zero": bool(len(req) == 2 and req[0] == req[1]),
         "passes": rpasses, "success": success,
         "success_flag_present": "success" in fp,
-        "k": k,
+        "k": k, "k_not_one": bool(k != 1),
     })
     # stored initial parameters after the fit
     try:
@@ -350,6 +350,7 @@ def observe_fit(idnt, kwargs, label=""):
 def slim_for_tlc(r):
     keep = ["mode", "nsamp", "segreq", "seg", "xr", "req_lo", "req_hi",
             "req_zero", "passes", "success", "success_flag_present",
+            "k_not_one",
             "stored_cp_exp", "final_mask", "stale_keys", "xminmax_ok",
             "scan", "rel"]
     r2 = {k: r[k] for k in keep}
